@@ -103,6 +103,8 @@ BodyClauses ==
    \cup When(\E i \in 1..Len(E.fields) : ~FieldOK(E.fields[i]), "body_push_fields")
    \* decode succeeds and consumes exactly the buffer
    \cup When(~dok \/ E.dend # E.buflen, "body_decode_consumes")
+   \* the decoded value knows its version
+   \cup When(dok /\ E.decver # E.ver, "body_version_recorded")
    \* every primitive cell written is read back as a cell of the same kind, width and bytes (multisets)
    \cup When(dok /\ E.tdec # E.treal, "body_decode_tape")
    \* the decoded value re-encodes to the same length, the same cells, and (no Go map iterated) the same bytes
